@@ -123,6 +123,7 @@ func init() {
 		Assumptions: []string{"the rasterizer is the reference for dash scaling", "PS.RenderImage (binary image data) is outside the grammar rule"},
 		Run: func(c *core.Ctx, r *core.Report) {
 			E11ConstIndexInLoop(c, r)
+			E6DashPeriod(c, r)
 			E6StyleCoverage(c, r, nil)
 			E6DashScaling(c, r)
 			E6WidthFrame(c, r)
@@ -159,6 +160,7 @@ func init() {
 		Run: func(c *core.Ctx, r *core.Report) {
 			E1Renderers(c, r)
 			E12Units(c, r)
+			E6ImplicitClose(c, r)
 			E6StyleCoverage(c, r, map[string]bool{"Rasterizer": true})
 			E6ScannerSites(c, r)
 			E6WindingMode(c, r)
@@ -219,6 +221,7 @@ func init() {
 		Run: func(c *core.Ctx, r *core.Report) {
 			E11Subsetter(c, r)
 			E5SubsetOnce(c, r)
+			E5WidthRuns(c, r)
 			E5FontMaps(c, r)
 			E5Resources(c, r)
 		},
@@ -227,6 +230,7 @@ func init() {
 		Title: "Imported SVG documents draw the geometry the SVG specifies",
 		Explanation: "Decides the unit and coverage tables of the importer for every document: parseDimension's factors equal the CSS absolute-unit and angle tables (constant folding); the canvas size is in millimetres on every branch (explicit width/height and viewBox fallback use the same px→mm factor) and init uses the inverse factor, the y-down coordinate system and the size/viewBox user-unit scale (px→mm without a viewBox); drawShape has a case for each basic shape; the path data parser's index guards and explicit-panic freedom are decided under C11. NOT decided: styling precedence, CSS selectors, transform order, per-element geometry, the write/read round trip.",
 		Run: func(c *core.Ctx, r *core.Report) {
+			E11SVGTransformTable(c, r)
 			E11SVGUnits(c, r)
 			E11ReuseAfterEscape(c, r, "/svg.go")
 		},
